@@ -85,7 +85,7 @@ func TestC12(t *testing.T) {
 			jobs = append(jobs, chainJob{fc, i})
 		}
 	}
-	vcore.Parallel(len(jobs), workers, func(k int) {
+	vcore.WatchedParallel(r, "chains", len(jobs), workers, func(k int) {
 		j := jobs[k]
 		fc := j.fc
 		rng := r.Rand(fmt.Sprintf("chain/%s/%d", fc.name, j.idx))
@@ -198,7 +198,7 @@ func TestC12(t *testing.T) {
 			}
 		}
 	}
-	vcore.Parallel(len(bjobs), workers, func(k int) {
+	vcore.WatchedParallel(r, "boundary", len(bjobs), workers, func(k int) {
 		j := bjobs[k]
 		rng := r.Rand(fmt.Sprintf("boundary/%s/%s/%d", j.fc.name, j.nt.name, j.idx))
 		p := genBoundaryProgram(rng, j.fc, j.nt.field.BitLen())
@@ -248,12 +248,18 @@ func TestC12(t *testing.T) {
 			}
 		}
 	}
-	vcore.Parallel(len(mjobs), workers, func(k int) {
+	vcore.WatchedParallel(r, "modchains", len(mjobs), workers, func(k int) {
 		j := mjobs[k]
 		fc := j.fc
 		rng := r.Rand(fmt.Sprintf("modchain/%s/%d", fc.name, j.idx))
 		compileIt := j.idx == 0
 		p := genModProgram(rng, fc, 6+rng.IntN(30), !compileIt && fc.nbLimbs <= 4 && j.idx%3 == 1)
+		if j.idx%5 == 4 {
+			// long accumulation: enough consecutive additions to go through ModAdd's own
+			// reduce-and-retry path two or three times on either native field
+			p = genModAccumulate(rng, fc, 200+rng.IntN(400))
+			r.Count("modchains.long-accumulation", 1)
+		}
 		cr := fc.newChain(p)
 		label := fmt.Sprintf("modchain|%s|%d", fc.name, j.idx)
 		r.Count("modchains", 1)
@@ -316,7 +322,7 @@ func TestC12(t *testing.T) {
 			}
 		}
 	}
-	vcore.Parallel(len(ajobs), workers, func(k int) { runAdv(r, ajobs[k].fc, ajobs[k].kind, ajobs[k].builder, ajobs[k].nt) })
+	vcore.WatchedParallel(r, "adversary", len(ajobs), workers, func(k int) { runAdv(r, ajobs[k].fc, ajobs[k].kind, ajobs[k].builder, ajobs[k].nt) })
 
 	// ---- 4. padding forgeries: only subPaddingHint lies (variable-modulus equality) ----
 	type padJob struct {
@@ -349,7 +355,7 @@ func TestC12(t *testing.T) {
 			}
 		}
 	}
-	vcore.Parallel(len(pjobs), workers, func(k int) {
+	vcore.WatchedParallel(r, "padding-forgeries", len(pjobs), workers, func(k int) {
 		j := pjobs[k]
 		runPadForgeries(r, j.fc, j.variant, j.k, j.builder, j.nt)
 	})
